@@ -403,6 +403,15 @@ func c20Exec(raw json.RawMessage) Result {
 		logger := zap.New(zapcore.NewNopCore()).WithOptions(zap.WrapCore(func(zapcore.Core) zapcore.Core {
 			return zapcore.NewCore(zapcore.NewJSONEncoder(zap.NewProductionEncoderConfig()), zapcore.AddSync(io.Discard), lvl)
 		})).With(zap.Int("k", 1))
+		// two shadow levels receive the same requests: `silenced` starts above Fatal and has a logger built from a zap.Config
+		// at that moment (the endpoint must be able to switch that logger on); `deaf` answers through a ResponseWriter whose
+		// Write fails (a client that went away must not undo or prevent the change)
+		silenced := zap.NewAtomicLevelAt(zapcore.FatalLevel + 1)
+		cfgLogger, cfgErr := zap.Config{Level: silenced, Encoding: "json", EncoderConfig: zap.NewProductionEncoderConfig(),
+			OutputPaths: []string{}, ErrorOutputPaths: []string{}}.Build()
+		must(cfgErr)
+		cfgChild := cfgLogger.With(zap.Int("k", 2))
+		deaf := zap.NewAtomicLevelAt(zapcore.Level(op.Init))
 		steps := []map[string]any{}
 		o := ok()
 		shape := ""
@@ -459,12 +468,42 @@ func c20Exec(raw json.RawMessage) Result {
 					o = bad("C20:http-logger-stale", "req %d: derived logger does not honour level %v", i, after)
 				}
 			}
+			replay := func(al zap.AtomicLevel, w http.ResponseWriter) {
+				rq2, err := http.NewRequest(rq.Method, "http://localhost"+target, bytes.NewReader(body))
+				must(err)
+				if rq.CType != "" {
+					rq2.Header.Set("Content-Type", rq.CType)
+				}
+				al.ServeHTTP(w, rq2)
+			}
+			replay(silenced, httptest.NewRecorder())
+			if rec.Code == 200 && rq.Method == "PUT" && silenced.Level() != after {
+				o = bad("C20:http-shadow-level", "req %d: the same PUT on a level that started above fatal gives %v, want %v", i, silenced.Level(), after)
+			}
+			for l := -1; l <= 5; l++ {
+				want := zapcore.Level(l) >= silenced.Level()
+				if cfgLogger.Core().Enabled(zapcore.Level(l)) != want || cfgChild.Core().Enabled(zapcore.Level(l)) != want {
+					o = bad("C20:http-logger-stale:config-built", "req %d: the logger built by Config.Build while the level was above fatal answers Enabled(%d)=%v after the endpoint set %v",
+						i, l, cfgLogger.Core().Enabled(zapcore.Level(l)), silenced.Level())
+				}
+			}
+			replay(deaf, &c20DeafWriter{h: http.Header{}})
+			if deaf.Level() != after {
+				o = bad("C20:http-failing-response-writer", "req %d: with a ResponseWriter whose Write fails the level is %v afterwards, with a working one %v", i, deaf.Level(), after)
+			}
 			shape += fmt.Sprintf("%s:%d ", rq.Method, rec.Code)
 		}
 		return Result{Impl: map[string]any{"steps": steps}, Oracle: o, Nontrivial: changed, Shape: "http/" + strings.TrimSpace(shapeCap(shape))}
 	}
 	panic("unknown op kind " + op.K)
 }
+
+// c20DeafWriter: the client went away — headers are accepted, every Write fails
+type c20DeafWriter struct{ h http.Header }
+
+func (w *c20DeafWriter) Header() http.Header       { return w.h }
+func (w *c20DeafWriter) WriteHeader(int)           {}
+func (w *c20DeafWriter) Write([]byte) (int, error) { return 0, io.ErrClosedPipe }
 
 func shapeCap(s string) string {
 	if len(s) > 24 {
